@@ -501,6 +501,7 @@ class DAGRunConcurrentManager(DAGRunManagerLike):
             return None
 
         local_tasks = []
+        local_node_tasks = set()
 
         for node_id in list_node_ids:
 
@@ -515,7 +516,10 @@ class DAGRunConcurrentManager(DAGRunManagerLike):
 
             if dag.is_oneof and self.__has_subgraph_error(dag):
                 logger.debug('An error has been found in the %s', dag)
-                self._stop_coro_tasks(*local_tasks)
+
+                # A node that is already being executed may be needed by another subgraph (the next candidate,
+                # the main graph), which will wait for its result: only the helper tasks are stopped.
+                self._stop_coro_tasks(*(task for task in local_tasks if task not in local_node_tasks))
 
                 # We must unlock descendants because the next OneOf subgraph should start the process.
                 # Otherwise, the entire subgraph will be locked.
@@ -536,6 +540,9 @@ class DAGRunConcurrentManager(DAGRunManagerLike):
                 )
 
             local_tasks.append(self._create_task(coro_to_run, name=node_id))
+
+            if not self._is_switch(node_id) and not self._is_head_of_oneof(node_id):
+                local_node_tasks.add(local_tasks[-1])
 
         logger.debug('Await for result for %s the dag %s', dag.dest, dag)
 
